@@ -769,6 +769,88 @@ theorem while_prune {g A : Graph} {keep : List Nat} (V : View g A keep) (r : Nat
     rw [Py.whileFuel_succ, hc, decide_eq_false hgt, hpl]
     simp
 
+theorem nComponents_le (g : Graph) : g.nComponents ≤ g.n := by
+  rw [nComponents_eq_count]
+  have := List.length_filter_le g.isCompMin (List.range g.n)
+  simpa using this
+
+abbrev PruneS2 := Bool × List Bool × Graph × List Nat × Nat
+
+/-- the loop of `PointTree.from_mask` written as `while True: mask; renumber the root; components; if one
+component: break; mask = labels == labels[root]` (first masking included in the loop): it stops after at most two
+rounds with the result of the model's `pruneLoop` on the masked graph -/
+theorem while_prune2 (g : Graph) (root : Nat) (mask : List Bool) (hl : mask.length = g.n)
+    (hroot : mask[root]? = some true)
+    (c : PruneS2 → Bool) (b : PruneS2 → PruneS2) (F : Nat) (W : Option PruneS2)
+    (hW : Py.whileFuel F (false, mask, g, List.range g.n, root) c b = W) (hF : g.n + 1 ≤ F)
+    (hc : ∀ brk m A K r, c (brk, m, A, K, r) = !brk)
+    (hb : ∀ m A K r, b (false, m, A, K, r) =
+      if decide ((A.select (nonzeroIdx m)).nComponents ≤ 1) then
+        (true, m, A.select (nonzeroIdx m), maskFilter K m, rank m r)
+      else
+        (false, pyEq (A.select (nonzeroIdx m)).componentLabels.2
+            (pyGet (A.select (nonzeroIdx m)).componentLabels.2 (rank m r)),
+          A.select (nonzeroIdx m), maskFilter K m, rank m r)) :
+    ∃ m', W = some (true, m',
+      (pruneLoop (g.n + 1) (g.select (keepIdx g.n mask)) (rank mask root) (keepIdx g.n mask)).1,
+      (pruneLoop (g.n + 1) (g.select (keepIdx g.n mask)) (rank mask root) (keepIdx g.n mask)).2.2,
+      (pruneLoop (g.n + 1) (g.select (keepIdx g.n mask)) (rank mask root) (keepIdx g.n mask)).2.1) := by
+  have hpos : 0 < g.n := by
+    rcases Nat.lt_or_ge root mask.length with h | h
+    · omega
+    · rw [List.getElem?_eq_none h] at hroot; cases hroot
+  have hnz : nonzeroIdx mask = keepIdx g.n mask := by simp [nonzeroIdx, keepIdx, hl]
+  have hP : maskFilter (List.range g.n) mask = keepIdx g.n mask := rfl
+  have V : View g (g.select (keepIdx g.n mask)) (keepIdx g.n mask) :=
+    view_of_select g _ (keepIdx_sorted g.n mask) (MenpoModel.C14.keepIdx_lt g.n mask)
+  have hr0 : rank mask root < (g.select (keepIdx g.n mask)).n := rank_lt_keepIdx_length g.n mask hl root hroot
+  subst hW
+  obtain ⟨f, rfl⟩ : ∃ f, F = f + 2 := ⟨F - 2, by omega⟩
+  rw [Py.whileFuel_succ, hc, Bool.not_false, if_pos rfl, hb, hnz, hP]
+  by_cases hgt : (g.select (keepIdx g.n mask)).nComponents > 1
+  · -- a second round, after which one component is left
+    have hle : ¬ (g.select (keepIdx g.n mask)).nComponents ≤ 1 := by omega
+    have hn2 : 2 ≤ g.n := by
+      have h1 := nComponents_le (g.select (keepIdx g.n mask))
+      have h2 : (g.select (keepIdx g.n mask)).n = (keepIdx g.n mask).length := rfl
+      have h3 : (keepIdx g.n mask).length ≤ g.n := by
+        rw [← hl, keepIdx_length]; exact List.count_le_length
+      omega
+    obtain ⟨f', rfl⟩ : ∃ f', f = f' + 1 := ⟨f - 1, by omega⟩
+    have hR := round_spec V (rank mask root) hr0
+    have hlm := labelMask_eq (g.select (keepIdx g.n mask)) (rank mask root) hr0
+    have hnz2 : nonzeroIdx (compMask (g.select (keepIdx g.n mask)) (rank mask root))
+        = keepIdx (g.select (keepIdx g.n mask)).n (compMask (g.select (keepIdx g.n mask)) (rank mask root)) := by
+      simp [nonzeroIdx, keepIdx, compMask_length]
+    have hK : maskFilter (keepIdx g.n mask) (compMask (g.select (keepIdx g.n mask)) (rank mask root))
+        = (keepIdx (g.select (keepIdx g.n mask)).n (compMask (g.select (keepIdx g.n mask)) (rank mask root))).map
+            fun i => (keepIdx g.n mask).getD i 0 := by
+      rw [maskFilter_eq_map_getD, ← V.n_eq]
+    have hpl : pruneLoop (g.n + 1) (g.select (keepIdx g.n mask)) (rank mask root) (keepIdx g.n mask) =
+        ((g.select (keepIdx g.n mask)).select
+            (keepIdx (g.select (keepIdx g.n mask)).n (compMask (g.select (keepIdx g.n mask)) (rank mask root))),
+          rank (compMask (g.select (keepIdx g.n mask)) (rank mask root)) (rank mask root),
+          (keepIdx (g.select (keepIdx g.n mask)).n (compMask (g.select (keepIdx g.n mask)) (rank mask root))).map
+            fun i => (keepIdx g.n mask).getD i 0) := by
+      rw [pruneLoop, if_pos hgt]
+      exact pruneLoop_of_conn g.n _ _ _ hR.conn
+    have hconn1 : decide ((g.select (keepIdx g.n mask)).nComponents ≤ 1) = false := by simpa using hle
+    rw [hconn1]
+    simp only [Bool.false_eq_true, if_false]
+    rw [Py.whileFuel_succ, hc, Bool.not_false, if_pos rfl, hb, hlm, hnz2, hK]
+    have hconn2 : decide ((Graph.select (g.select (keepIdx g.n mask))
+        (keepIdx (g.select (keepIdx g.n mask)).n (compMask (g.select (keepIdx g.n mask)) (rank mask root)))).nComponents ≤ 1)
+        = true := by
+      have := hR.conn; simp [this]
+    rw [hconn2, if_pos rfl, Py.whileFuel_succ, hc, hpl]
+    exact ⟨compMask (g.select (keepIdx g.n mask)) (rank mask root), by simp⟩
+  · have hle : (g.select (keepIdx g.n mask)).nComponents ≤ 1 := by omega
+    have hpl : pruneLoop (g.n + 1) (g.select (keepIdx g.n mask)) (rank mask root) (keepIdx g.n mask)
+        = (g.select (keepIdx g.n mask), rank mask root, keepIdx g.n mask) := by rw [pruneLoop, if_neg hgt]
+    have hconn1 : decide ((g.select (keepIdx g.n mask)).nComponents ≤ 1) = true := by simpa using hle
+    rw [hconn1, if_pos rfl, Py.whileFuel_succ, hc, hpl]
+    exact ⟨mask, by simp⟩
+
 /-- the result of `PointTree.from_mask` on index points: the model's `treeFromMask` -/
 def treeFromMaskResult (g : Graph) (root : Nat) (mask : List Bool) : Option (Graph × Nat × List Nat) :=
   match g.treeFromMask root mask with
@@ -804,8 +886,10 @@ theorem genFromMaskT_eq (g : Graph) (root : Nat) (mask : List Bool) :
         split
         all_goals
           rename_i heq
-          obtain ⟨m', hw⟩ := while_prune V (rank mask root) hr0 _ _ _ _ _ heq (by omega)
-            (by intros; rfl) (by intros; rfl)
+          obtain ⟨m', hw⟩ : ∃ m', _ = some _ := by
+            first
+              | exact while_prune V (rank mask root) hr0 _ _ _ _ _ heq (by omega) (by intros; rfl) (by intros; rfl)
+              | exact while_prune2 g root mask hl hroot _ _ _ _ heq (by omega) (by intros; simp) (by intros; rfl)
           first
             | (cases hw; done)
             | (cases hw
